@@ -117,6 +117,7 @@ class Polarization(BaseState):
         then it gets expanded to density matrix
         """
         from photon_weave.state.composite_envelope import CompositeEnvelope
+        from photon_weave.state.envelope import Envelope
 
         # If the state is in composite envelope expand the product space there
         if isinstance(self.index, tuple) or isinstance(self.index, list):
@@ -164,6 +165,7 @@ class Polarization(BaseState):
         tol: float
             Tolerance when comparing matrices
         """
+        from photon_weave.state.composite_envelope import CompositeEnvelope
         from photon_weave.state.envelope import Envelope
 
         # If state was measured, then do nothing
@@ -283,6 +285,7 @@ class Polarization(BaseState):
             Measurement Outcome
         """
         from photon_weave.state.composite_envelope import CompositeEnvelope
+        from photon_weave.state.envelope import Envelope
 
         # If the state is in the envelope, measure there
         if isinstance(self.index, int):
